@@ -28,7 +28,22 @@ import (
 // is at a height it had reported as committed, or one above; it never fails to start.
 func init() {
 	run.Register("crash-kill", func(c *run.Ctx) {
-		w, v := wideWorld(c, false)
+		// Every other instance straddles the wall clock: genesis at the real time of the run, one-second
+		// blocks, a price expiry of three seconds, and the replaying process starts six seconds later -
+		// it executes the same blocks at a real time on the other side of "block time + expiry". A state
+		// machine that consults the node's clock instead of the block time computes something else
+		// there. (The clock is read by the workload only; the verdict is hash equality.)
+		straddle := c.Job.Index%2 == 1
+		var w *chain.World
+		var v *Variant
+		if straddle {
+			v = NewVariant(c)
+			w = chain.NewWorld(chain.Config{NUsers: 12, Probes: false, Inflation: 1e14, VestBlocks: 50, EdenClaimed: 3_000_000_000, EnableVestNow: true, PriceExpiry: 3, LifeTimeBlock: 100000, Airdrops: true, GenesisTime: time.Now().Unix()})
+			c.Attach(w)
+			c.Ev("wall_clock_straddling_instance")
+		} else {
+			w, v = wideWorld(c, false)
+		}
 		v.Prologue(w)
 		w.GovExec("eden on", &mctypes.MsgTogglePoolEdenRewards{Authority: w.Gov, PoolId: 1, Enable: true}, &mctypes.MsgTogglePoolEdenRewards{Authority: w.Gov, PoolId: 2, Enable: true})
 		burnerOn(c, w)
@@ -36,6 +51,9 @@ func init() {
 		g.FeeProb = 0.4
 		g.MaxTx = 8
 		g.Free(c.N(70, 220), func(i int) int64 {
+			if straddle {
+				return 1
+			}
 			if i%29 == 28 {
 				return 90000
 			}
@@ -65,6 +83,9 @@ func init() {
 			}
 		}
 		self, _ := os.Executable()
+		if straddle {
+			time.Sleep(6 * time.Second)
+		}
 		r := rand.New(rand.NewSource(c.Job.Sub(41)))
 		kills, starts := 0, 0
 		maxKills := c.N(25, 80)
@@ -90,6 +111,15 @@ func init() {
 			extra := time.Duration(r.Intn(25_000)) * time.Microsecond
 			if kills >= maxKills {
 				target = 1 << 30 // let it finish
+			}
+			// Until the child has reported its first committed block it is not killed: the property
+			// speaks of a node stopped after a committed block, and a kill inside the very first Commit
+			// can leave the SDK's stores at version 1 with the commit metadata still at 0 - the restarted
+			// application then runs InitChain again on top of them and panics in a third-party keeper
+			// ("SetIndex requires index to not be set"), which is not the code under test. From the first
+			// committed block on, kills land anywhere, inside commits included.
+			if !fileContains(outPath, "\nblock ") && target < 1 {
+				target = 1
 			}
 			base := countLines(outPath)
 			trigger := make(chan struct{})
@@ -215,4 +245,9 @@ func countLines(path string) int {
 		return 0
 	}
 	return strings.Count(string(bs), "\n")
+}
+
+func fileContains(path, sub string) bool {
+	bs, err := os.ReadFile(path)
+	return err == nil && strings.Contains("\n"+string(bs), sub)
 }
